@@ -40,8 +40,9 @@ func (d *Dump) symByName(name string) int {
 // code, named tokens by name (independent of the internal naming of literals).
 func (d *Dump) symByRef(ref string) int {
 	if strings.HasPrefix(ref, "'") && len(ref) >= 3 {
+		code := []rune(ref[1:])[0]
 		for _, s := range d.Symbols {
-			if !s.IsNT && s.Value == int(ref[1]) && s.ID > 1 {
+			if !s.IsNT && s.Value == int(code) && s.ID > 1 {
 				return s.ID
 			}
 		}
